@@ -264,8 +264,11 @@ def build(flavour="plain", repo=None, only=None, verbose=False):
             pass
         info = dict(dir=outdir, flavour=flavour, stale=stale, built=built, wall_s=round(time.time() - t0, 2),
                     modules=[n for n, _, _, _ in plans], shim=shim)
-        with open(os.path.join(outdir, "overlay.json"), "w") as f:
+        oj = os.path.join(outdir, "overlay.json")
+        tmpj = oj + ".%d.tmp" % os.getpid()
+        with open(tmpj, "w") as f:
             json.dump(info, f)
+        os.replace(tmpj, oj)  # atomic: workers of concurrent checks read this file
         # prune old overlays of this flavour (keep the 3 most recent)
         _prune(os.path.join(BUILD_ROOT, flavour), keep=outdir)
         if verbose:
